@@ -167,6 +167,38 @@ def main(args):
             real[rid] = {"document": long_doc, "fragment": frag, "observed": {"outcome": out, "value": copy.deepcopy(v)}}
             ck.count(("long", frag), True)
             rid += 1
+    # documents whose objects are mappings that are no dicts (read-only proxies, UserDict): an object is an object --
+    # members called "0", "200" are looked up by name, never turned into indices
+    import types
+    import collections
+
+    def as_proxy(x, kind):
+        if isinstance(x, dict):
+            inner = {k: as_proxy(v, kind) for k, v in x.items()}
+            return types.MappingProxyType(inner) if kind == "proxy" else collections.UserDict(inner)
+        if isinstance(x, list):
+            return [as_proxy(v, kind) for v in x]
+        return x
+    plain = {"responses": {"200": {"enum": [1]}, "0": 5, "1": {"0": "deep"}}, "list": [{"0": "in array"}, 7]}
+    for kind in ("proxy", "userdict"):
+        pdoc = as_proxy(plain, kind)
+        for frag in ("/responses/200", "/responses/0", "/responses/1/0", "/responses/2", "/list/0/0", "/list/1", "/list/0/1", "/responses/01", "/0"):
+            out, v = resolve(js, pdoc, frag)
+
+            def plainify(y):
+                if isinstance(y, (types.MappingProxyType, collections.UserDict)):
+                    return {k: plainify(z) for k, z in y.items()}
+                if isinstance(y, list):
+                    return [plainify(z) for z in y]
+                return y
+            try:
+                rec = {"id": rid, "doc": enc(plain), "frag": enc_str(frag), "out": out, "v": enc(plainify(v)) if out == "value" else {"t": "null"}}
+            except Unencodable:
+                continue
+            recs.append(rec)
+            real[rid] = {"document": plain, "document_objects_are": kind, "fragment": frag, "observed": {"outcome": out, "value": repr(v)[:80]}}
+            ck.count((kind, frag), True)
+            rid += 1
     for i in range(n):
         doc = rand_doc(ck.rng, 3)
         frag = rand_fragment(ck.rng, doc)
